@@ -72,7 +72,16 @@ SPEC = {
             "layout check; pipeline errors; exporter "
             "errors on every target) and the 504 rejected inputs of the repository's typer tests, each compiled 8 times in one "
             "process and once in each of 3 fresh processes; all digests (sources, stages, metadata, state, fully rendered "
-            "diagnostics) must be equal; non-trivial = the compilation succeeded (accepted streams) / was rejected (diagnostics streams)",
+            "diagnostics) must be equal; non-trivial = the compilation succeeded (accepted streams) / was rejected (diagnostics streams). "
+            "History independence (C07.history, 60 quick / 400 thorough sequences of 2-6 requests + 4 corpus sequences): programs "
+            "declaring identifiers that exactly ONE back end reserves (taken from the RESERVED_NAMES tables of the tree under check, "
+            "287 names, ~1290 (name, role) pairs the front end accepts as local / function / struct / global / parameter / member) "
+            "for an HLSL target and for Metal, mixed with other targets, no-pipeline mode, the same input with a client define, other "
+            "such programs, generated / name-clash / shared-name programs, rejected programs and (thorough) the repository's inputs: "
+            "every item is compiled alone in a fresh process, after the others in fresh processes in 4 orders (as listed, reversed, "
+            "rotated, shuffled), and in the long-running harness process; each result must equal the item's alone-in-a-fresh-process "
+            "result; a failure is shrunk to the shortest sequence and names the first differing emitted line; non-trivial = both "
+            "back ends in the sequence and an accepted item",
     "level_text": "Proof of the logic, test of the runtime: every shape of hash-iteration site (collect+sort with an antisymmetric "
                   "order or an injective key, insert under distinct keys, commutative fold, check-only loop) is proved invariant "
                   "under every permutation of the iteration order; Context::end_enum - five loops over a Vec drained from a HashMap "
@@ -80,9 +89,17 @@ SPEC = {
                   "independent as a whole, including the location and payload of its range error; the translator's inventory of "
                   "traversals of hash ordered containers (HashMap/HashSet and Vecs filled from them) in the current source is "
                   "proved to contain only reviewed sites WITH THE REVIEWED BODY (fingerprint per loop body), and a body that can "
-                  "leave early, builds a diagnostic or keeps a first value is never accepted as a commutative fold. The actual "
+                  "leave early, builds a diagnostic or keeps a first value is never accepted as a commutative fold. History "
+                  "independence: a process whose step never reads process-wide state gives every request, after any history "
+                  "and in any permutation, its fresh-process result (proved for all step functions, Model/History.lean); the "
+                  "regenerated inventory Gen.GlobalState proves the premise about the source: no `static` item at all, no "
+                  "thread_local!/lazy_static!, no OnceLock/OnceCell/LazyLock/Mutex/RwLock/Atomic*/Once/UnsafeCell/Arc, no "
+                  "Box::leak/mem::forget/unsafe, no environment/clock/process/thread/randomness/hasher-state/address reads, "
+                  "only path dependencies and no build scripts; the seeded OnceLock variant is transcribed and proved history "
+                  "DEPENDENT with the regenerated reserved lists (`main` on Metal after one HLSL request). The actual "
                   "SipHash seeds are runtime behaviour no model exhibits: they are exercised by repeated in-process and "
-                  "fresh-process compilations of accepted and rejected programs compared byte for byte.",
+                  "fresh-process compilations of accepted and rejected programs compared byte for byte; what a process "
+                  "keeps between two compilations is exercised by request sequences compared with fresh processes.",
     "trusted_base": [
         "Lean 4.33 kernel; axioms propext / Classical.choice / Quot.sound only",
         "tools/gens/c07.py: heuristic inventory (regular expressions per file and function) of traversals of hash ordered "
@@ -96,6 +113,16 @@ SPEC = {
         "hypotheses of end_enum_order_independent are typer invariants read off the code: enum values are integer-like, value "
         "ids and names distinct, one symbol per enumerator name in the parent scope",
         "Rust's sort/sort_by return a sorted permutation; HashMap = finite map with unspecified iteration order",
+        "tools/gens/c07.py GlobalState: regular expressions over the comment- and literal-stripped text of every non-test .rs "
+        "file of the 10 compiler crates (`static NAME:` anywhere, state macros, shared-state type names, leak/unsafe, ambient "
+        "reads) and the [dependencies] / build.rs of their manifests; state hidden behind a macro of an external crate would "
+        "show up as an external dependency, state built by a proc-macro of the workspace itself would not be seen; "
+        "metal_invoker (external process for Metal validation, not part of `compile`'s outputs) is not scanned",
+        "Model/History.lean stepReal / stepOnceLock transcribe only the reserved-set part of NameMap::build (the full build "
+        "is the C15 model); the step from `no static state in the source` to `the step function does not read state` is the "
+        "language guarantee of safe Rust (assumption below), not a theorem",
     ],
-    "assumptions": ["single-threaded safe Rust has no other source of nondeterminism than hash iteration order"],
+    "assumptions": ["single-threaded safe Rust has no other source of nondeterminism than hash iteration order",
+                    "safe Rust without `static` items, thread locals, leaks and ambient reads cannot carry information from one "
+                    "call of `compile` to the next except through its arguments (the include handler is the caller's)"],
 }
